@@ -7,7 +7,8 @@ What the peers map, the clock and the parser hand out is unconstrained (PRELUDE)
 externals -- what is decided is which peers are handed to that code, and that each is handed over exactly once.
 """
 NAME = 'idle'
-TUS = [('src/server/endpoint.cc', 'Pistache')]
+import os
+TUS = [('src/server/endpoint.cc', 'Pistache'), (os.path.join(os.path.dirname(os.path.abspath(__file__)), '..', 'tus', 'stepid_inst.cc'), 'Pistache')]
 PRELUDE = r'''
 #include <stdlib.h>
 #include "vs_common.h"
@@ -42,7 +43,8 @@ static inline size_t vs_get_parser(const size_t *peer)
     g_cur = *peer; g_cur_step = (int)s;
     return *peer;
 }
-/* parser->step()->id(): one of RequestLineStep::Id, HeadersStep::Id, BodyStep::Id (fnv1a hashes of the names; assumed pairwise distinct) */
+/* parser->step()->id(): one of RequestLineStep::Id, HeadersStep::Id, BodyStep::Id (fnv1a hashes of the names; pairwise distinct: lemma_step_ids_distinct below,
+   computed from the real initialisers and the real hash function) */
 #define VS_ID_REQUESTLINE 1ul
 #define VS_ID_HEADERS 2ul
 #define VS_ID_BODY 3ul
@@ -65,7 +67,7 @@ static inline void vs_idle_push(struct vs_idlevec *v, size_t peer)
     if (peer == g_k) g_k_pushed++;
 }
 '''
-TYPES = {'std::unordered_map<Fd, std::shared_ptr<Tcp::Peer>>': 'struct vs_peers', 'std::unordered_map<Fd, std::shared_ptr<Peer>>': 'struct vs_peers', 'std::unordered_map<int, std::shared_ptr<Pistache::Tcp::Peer>> &': 'struct vs_peers *', 'std::vector<std::shared_ptr<Tcp::Peer>>': 'struct vs_idlevec',
+TYPES = {'StepId': 'unsigned long', 'Pistache::Http::Private::StepId': 'unsigned long', 'std::unordered_map<Fd, std::shared_ptr<Tcp::Peer>>': 'struct vs_peers', 'std::unordered_map<Fd, std::shared_ptr<Peer>>': 'struct vs_peers', 'std::unordered_map<int, std::shared_ptr<Pistache::Tcp::Peer>> &': 'struct vs_peers *', 'std::vector<std::shared_ptr<Tcp::Peer>>': 'struct vs_idlevec',
          'std::weak_ptr<Pistache::Tcp::Peer>': 'size_t', 'std::weak_ptr<Tcp::Peer>': 'size_t',
          '__gnu_cxx::__normal_iterator<std::shared_ptr<Pistache::Tcp::Peer>*, std::vector<std::shared_ptr<Pistache::Tcp::Peer>>>': 'size_t',
          'std::__detail::_Node_iterator<std::pair<int, std::shared_ptr<Pistache::Tcp::Peer>>, false, false>': 'size_t', 'std::pair<int, std::shared_ptr<Pistache::Tcp::Peer>>': 'struct vs_peerpair',
@@ -88,7 +90,6 @@ STUBS = {
     'std::vector<std::shared_ptr<Pistache::Tcp::Peer>>::push_back': {'expr': 'vs_idle_push($this, $0)'},
     # nanoseconds > milliseconds: <chrono> converts to the common type, nanoseconds
     'operator>|std::chrono::duration<long, std::ratio<1, 1000000000>>,std::chrono::duration<long, std::ratio<1, 1000>>': {'expr': '(($0) > ($1) * 1000000L)'},
-    'var:Pistache::Http::Private::RequestLineStep::Id': 'VS_ID_REQUESTLINE', 'var:Pistache::Http::Private::HeadersStep::Id': 'VS_ID_HEADERS', 'var:Pistache::Http::Private::BodyStep::Id': 'VS_ID_BODY',
     'operator-|std::chrono::time_point<std::chrono::steady_clock, std::chrono::duration<long, std::ratio<1, 1000000000>>>,std::chrono::time_point<std::chrono::steady_clock, std::chrono::duration<long, std::ratio<1, 1000000000>>>': {'expr': '(($0) - ($1))'},
     'operator->|std::__shared_ptr_access<Pistache::Http::Private::ParserImpl<Http::Request>, __gnu_cxx::_S_atomic, false, false>': {'expr': '($0)'},
     M + '::begin': {'expr': '((size_t)0)'}, M + '::end': {'expr': '(($this)->n)'},
@@ -107,7 +108,10 @@ OPAQUE_ANY = True
 ASSUME_PISTACHE = ['Pistache::']
 DEVIRT = {('Pistache_Http_TransportImpl_checkIdlePeers', 'id'): 'vs_step_id'}
 FUNCTIONS = [
-    {'q': 'Pistache::Http::TransportImpl::checkIdlePeers', 'hoist_all': True, 'contract': """
+    {'q': 'Pistache::Http::TransportImpl::checkIdlePeers', 'hoist_all': True,
+     # in checkIdlePeers only: the step identifiers abstracted to 1, 2, 3 (sound because the real ones are pairwise distinct, see the lemma)
+     'stubs': {'var:Pistache::Http::Private::RequestLineStep::Id': 'VS_ID_REQUESTLINE', 'var:Pistache::Http::Private::HeadersStep::Id': 'VS_ID_HEADERS', 'var:Pistache::Http::Private::BodyStep::Id': 'VS_ID_BODY'},
+     'contract': """
         requires FRESH(this, sizeof(*this)) && this->vs_base_Transport.peers.n <= PEERS_MAX && g_k < this->vs_base_Transport.peers.n
         # time-outs as configured: non-negative milliseconds, below 2^40 (34 years) so that the conversion to nanoseconds is exact
         requires 0 <= this->headerTimeout_ && this->headerTimeout_ <= TIMEOUT_MAX_MS && 0 <= this->bodyTimeout_ && this->bodyTimeout_ <= TIMEOUT_MAX_MS
@@ -132,7 +136,26 @@ FUNCTIONS = [
         invariant __begin2 <= __end2 && __end2 == idlePeers.n && vs_exc == 0
         invariant g_k_sent == ((idlePeers.has_k && idlePeers.k_pos < __begin2) ? 1 : 0)
         decreases __end2 - __begin2"""]},
+    # the step identifiers as /repo defines them (tus/stepid_inst.cc only names them): Meta::Hash::fnv1a over the step names
+    {'q': 'Pistache::Meta::Hash::fnv1a'},
+    {'q': 'Pistache::Http::Private::VerifInst::idRequestLine'}, {'q': 'Pistache::Http::Private::VerifInst::idResponseLine'},
+    {'q': 'Pistache::Http::Private::VerifInst::idHeaders'}, {'q': 'Pistache::Http::Private::VerifInst::idBody'},
 ]
 PROOFS = [
+    # the abstraction of the step identifiers to 1, 2, 3 in the PRELUDE is sound only if the real identifiers are pairwise distinct:
+    # computed here by CBMC from the real initialisers (complete: the recursion of fnv1a ends with the literal's terminator)
+    {'name': 'lemma_step_ids_distinct', 'enforce': None, 'lemma': 'lemma_step_ids_distinct', 'loops': ('unwind', 16),
+     'complete': 'closed computation: fnv1a recurses once per character of a step name (at most 12)', 'props': ['C14', 'C04'],
+     'harness': r'''
+void lemma_step_ids_distinct(void)
+{
+    unsigned long rl = Pistache_Http_Private_VerifInst_idRequestLine(), sl = Pistache_Http_Private_VerifInst_idResponseLine();
+    unsigned long h = Pistache_Http_Private_VerifInst_idHeaders(), b = Pistache_Http_Private_VerifInst_idBody();
+    __CPROVER_assert(rl != h && rl != b && h != b, "request parser: step identifiers pairwise distinct");
+    __CPROVER_assert(sl != h && sl != b, "response parser: step identifiers pairwise distinct");
+    VS_REACH(lemma_step_ids_distinct_end);
+}
+void h_lemma_step_ids_distinct(void) { lemma_step_ids_distinct(); }
+'''},
     {'name': 'checkIdlePeers', 'enforce': 'Pistache_Http_TransportImpl_checkIdlePeers', 'loops': 'contracts', 'props': ['C14']},
 ]
